@@ -134,6 +134,21 @@ def instances(tier):
                            var_heuristic_params=costs, dom_heuristic_idx=H.DOM_HEURISTIC_MIN_COST,
                            dom_heuristic_params=costs),
                       dict(decision_domains=list(range(n)))] + ([dict(consistency_alg_idx=SH)] if n <= 6 else []))
+    # random asymmetric instances (the shipped matrices are all symmetric): optimum vs Held-Karp, and every Hamiltonian
+    # circuit of the complete graph must be enumerated ((n-1)! of them, each with its right cost)
+    arnd = random.Random(11)
+    for i in range(6 if q else 30):
+        n = arnd.randint(4, 6 if q else 7)
+        costs = [[0 if a == b else arnd.randint(1, 60) for b in range(n)] for a in range(n)]
+        add(name="tsp-asym-%d-%d" % (n, i), family="tsp", kind="min", make=lambda costs=costs: TSPProblem(costs),
+            objective=lambda p: p.shr_domain_nb - 1, validator=S.v_tsp(costs),
+            optimum=S.held_karp(tuple(tuple(r) for r in costs)),
+            cfgs=[dict(decision_domains=list(range(n)), var_heuristic_idx=H.VAR_HEURISTIC_MAX_REGRET,
+                       var_heuristic_params=costs, dom_heuristic_idx=H.DOM_HEURISTIC_MIN_COST,
+                       dom_heuristic_params=costs), dict(decision_domains=list(range(n)))])
+        if n <= 6:
+            add(name="tsp-asym-all-%d-%d" % (n, i), family="tsp", make=lambda costs=costs: TSPProblem(costs),
+                validator=S.v_tsp(costs), count=S.count_circuits(n), cfgs=[dict(decision_domains=list(range(n)))])
     from nucs.examples.sudoku.sudoku_problem import SudokuProblem
 
     for i, g in enumerate(SUDOKUS):
